@@ -433,8 +433,8 @@ INTERESTING = {'action', '_fill', 'elect', 'defeat', 'unpend', 'copy', 'postChec
 PARAMS = {
     'quick': dict(exh_cap=2000, sample=300, op_cases=0.15, op_stride=5, op_random=60, main_cases=0.25, main_k=36,
                   sigint=0.01, window_orders=2, crosscheck=3, cprofile=0.08, op_max=700),
-    'thorough': dict(exh_cap=20000, sample=2500, op_cases=0.6, op_stride=1, op_random=400, main_cases=0.4, main_k=120,
-                     sigint=0.02, window_orders=3, crosscheck=6, cprofile=0.1, op_max=8000),
+    'thorough': dict(exh_cap=8000, sample=1500, op_cases=0.5, op_stride=1, op_random=400, main_cases=0.4, main_k=120,
+                     sigint=0.02, window_orders=3, crosscheck=6, cprofile=0.1, op_max=5000),
 }
 
 
